@@ -83,7 +83,32 @@ def r17abc(ctx):
               and any(isinstance(x, ast.Name) and x.id in flags for t, _ in structural_guards(n, stop=f.node) for x in ast.walk(t))
               and not enclosing_loops(n)]
     ok_scan = bool(refuse) and bool(flag_sets)
-    ctx.instance("R17a", f"{f.file}:{f.ident}", "is_spanned() positive ⇒ good = False ⇒ return False", ok=ok_scan, nontrivial=True)
+    # the scan looks at the whole requested area: it iterates over the matrix of cells that is pushed back at the end, not over a part of it
+    push_ = [n for n in walk_no_nested(f.node) if isinstance(n, ast.Call) and call_name(n) == "set_cells" and is_self_attr(n.func) and n.args and isinstance(n.args[0], ast.Name)]
+    matrix = push_[-1].args[0].id if push_ else None
+    outer_iter = None
+    cur = scans[0]
+    while cur is not None and cur is not f.node:
+        par = getattr(cur, "_parent", None)
+        if isinstance(par, ast.For) and cur is not par.iter and cur is not par.target:
+            outer_iter = par.iter
+        if isinstance(par, (ast.GeneratorExp, ast.ListComp, ast.SetComp)):
+            outer_iter = par.generators[0].iter
+        cur = par
+    whole = matrix is not None and isinstance(outer_iter, ast.Name) and outer_iter.id == matrix
+    ctx.instance("R17a", f"{f.file}:{f.ident}", f"the span scan iterates over the whole area (`{matrix}`), got `{norm(outer_iter, 30) if outer_iter is not None else None}`",
+                 ok=whole, nontrivial=True, line=scans[0].lineno)
+    if not whole:
+        ctx.report("R17a", f, scans[0], f"span scan over `{norm(outer_iter, 30) if outer_iter is not None else '?'}` instead of `{matrix}`",
+                   "set_span checks only part of the requested area for an existing span (e.g. the last row collected): a span that intersects another row of the area is "
+                   "accepted, the two spans overlap, and del_span no longer restores the table")
+    if not (refuse and flag_sets):
+        # the refusal may be written without a flag: `if any(cell.is_spanned() …): return False`
+        direct = [n for n in walk_no_nested(f.node) if isinstance(n, ast.Return) and isinstance(n.value, ast.Constant) and n.value.value is False
+                  and any(any(x is scans[0] for x in ast.walk(t)) and pol for t, pol in structural_guards(n, stop=f.node))]
+        if direct:
+            refuse, ok_scan = direct, True
+    ctx.instance("R17a", f"{f.file}:{f.ident}", "is_spanned() positive ⇒ return False (directly or through a flag)", ok=ok_scan, nontrivial=True)
     if not ok_scan:
         ctx.report("R17a", f, scans[0], "span scan does not refuse", "finding an already spanned cell in the area no longer makes set_span return False")
     writes = []
@@ -451,6 +476,8 @@ from ..selftest import Seed, unparse_seed  # noqa: E402
 _T = "src/odfdo/table.py"
 _R = "src/odfdo/row.py"
 SEEDS = [
+    Seed("set_span scans only the last collected row", "fault", _T, '        for row in cells:\n            for cell in row:\n                if cell.is_spanned():\n                    good = False\n                    break\n            if not good:\n                break\n        if not good:\n            return False\n', '        if any(cell.is_spanned() for cell in row_cells):\n            return False\n', "R17a"),
+    Seed("set_span scans the whole matrix with any()", "neutral", _T, '        for row in cells:\n            for cell in row:\n                if cell.is_spanned():\n                    good = False\n                    break\n            if not good:\n                break\n        if not good:\n            return False\n', '        if any(cell.is_spanned() for row in cells for cell in row):\n            return False\n'),
     Seed("optimize_width un-repeats the last row whatever it holds", "fault", _T,
          "            if last_row.is_empty(aggressive=False):\n                last_row._set_repeated(None)", "            last_row._set_repeated(None)", "R17d"),
     Seed("transpose reads the stored row elements", "fault", _T, "        if coord is None:\n            for row in self.traverse():\n                data.append(list(row.traverse()))",
